@@ -183,3 +183,10 @@ def r9(rr, repo):
 def r10(rr, repo):
     from .c06 import r18 as c06r18
     c06r18(rr, repo)
+
+
+@rule('C07.R11', "a frame goes to one branch once: send() answers 'not sent' (None) only when the time ran out WITHOUT a publish - a send whose attempt succeeded but outlasted its timeout reports success. "
+                 "Told 'not sent' after the frame went out, the caller's retry loop publishes the same frame again under the next id, and the rejoined stream carries it twice (shares C04.R9)")
+def r11(rr, repo):
+    from .c04 import r9 as c04r9
+    c04r9(rr, repo)
